@@ -187,3 +187,30 @@ def nonzero_edges(fn, is_x):
         if e:
             out.append(e)
     return out
+
+
+def zero_edges(fn, is_x):
+    """block edges on which the (unsigned) value selected by `is_x` is known to be zero: the complements of nonzero_edges"""
+    out = []
+    Z, ONE = ("c", 0), ("c", 1)
+    for t in cmp_tests(fn):
+        a, b, op = t["a"], t["b"], t["op"]
+        te, fe = t["true_edge"], t["false_edge"]
+        e = None
+        if is_x(a):
+            if op == "Eq" and b == Z: e = te
+            elif op == "Ne" and b == Z: e = fe
+            elif op == "Gt" and b == Z: e = fe
+            elif op == "Ge" and b == ONE: e = fe
+            elif op == "Lt" and b == ONE: e = te
+            elif op == "Le" and b == Z: e = te
+        elif is_x(b):
+            if op == "Eq" and a == Z: e = te
+            elif op == "Ne" and a == Z: e = fe
+            elif op == "Lt" and a == Z: e = fe
+            elif op == "Le" and a == ONE: e = fe
+            elif op == "Gt" and a == ONE: e = te
+            elif op == "Ge" and a == Z: e = te
+        if e:
+            out.append(e)
+    return out
